@@ -719,7 +719,7 @@ class C01(Check):
     def assumptions(self):
         return ['histories: each step updates one file to one of the listed contents (remove_source + add_design_file, as Project::update_source/analyse do); reset points drain added/removed as DesignRoot::reset does',
                 'units come from the real parser on the listed contents; the analysis result of a unit is opaque',
-                'the analyser itself (what a unit\'s analysis computes from its dependencies), Project::update_source parsing, the lint caches and arena id reuse are outside this check',
+                'whole-project part: six listed projects with the bundled std library (ieee not loaded); the first three parts treat the analysis result of a unit as opaque',
                 'FnvHashMap/FnvHashSet are modelled (insertion ordered); single thread']
 
 
